@@ -530,7 +530,8 @@ def cfg_text(name, **subst):
     return text
 
 
-JVM_ENV = {"JAVA_TOOL_OPTIONS": "-XX:ParallelGCThreads=2 -XX:CICompilerCount=2"}
+# the box is shared: keep the JVM from spawning one GC/JIT thread per core for a single-worker TLC
+JVM_ENV = {"JAVA_TOOL_OPTIONS": "-XX:ParallelGCThreads=2 -XX:CICompilerCount=2 -XX:TieredStopAtLevel=1 -Xss64m"}
 
 
 def _cached_run(mod, cfg, kw):
@@ -597,56 +598,52 @@ def run_exhaustive(ctx, name, res, constants):
 
 # ------------------------------------------------------------------------------ binding self-tests
 def selftest_G():
-    """Broken implementations (in-process, restored in finally) must be flagged by the same replay code."""
+    """Broken implementations (in-process, restored in finally) must be flagged by the same replay code.
+
+    A mutant counts as flagged when the replay reports a signature it does not report for the code as it is
+    (if the code under test already violates on the probe the main check reports that; the probe is then
+    inconclusive rather than a machinery failure)."""
     m = M()
     bio = m["bio"]
+    dio = m["dio"]
     fired = {}
     O = lambda op, n=0, v=0, s=(): {"op": op, "n": n, "v": v, "s": tuple(s)}  # noqa
 
     def wstep(o, p0, p1, err="none", on0=False, rem0=0, on1=False, rem1=0, placed=None, ln=0, emit=()):
         return dict(o=o, p0=p0, p1=p1, err=err, on0=on0, rem0=rem0, on1=on1, rem1=rem1, placed=p1 - p0 if placed is None else placed, len=ln, emit=tuple(emit))
 
+    def sigs(res):
+        return set(sg for sg, _ in res["violations"])
+
+    def probe(name, run, obj, attr, broken):
+        base = sigs(run())
+        orig = getattr(obj, attr)
+        setattr(obj, attr, broken(orig))
+        try:
+            new = sigs(run()) - base
+        finally:
+            setattr(obj, attr, orig)
+        if new:
+            fired[name] = sorted(new)
+        elif base:
+            fired[name] = "inconclusive: the code under test is already flagged on this probe (%s)" % sorted(base)
+        else:
+            raise RuntimeError("binding self-test failed: mutant %r was not flagged" % name)
+
     # 1. reader drops the sign of read_sint -> readback value
     hist = [wstep(O("sint", v=-1), 0, 4, ln=4, emit=(0, 0, 1, 1))]
     fin = {"file": (0, 0, 1, 1, 0, 0, 0, 0), "intact": (True,)}
-    if replay_writer(hist, fin)["violations"]:
-        raise RuntimeError("self-test premise failed: the unmodified code is flagged on sint(-1)")
-    orig = bio.BitstreamReader.read_sint
-    bio.BitstreamReader.read_sint = lambda self: abs(orig(self))
-    try:
-        fired["reader drops sign"] = sorted(set(s for s, _ in replay_writer(hist, fin)["violations"]))
-    finally:
-        bio.BitstreamReader.read_sint = orig
+    probe("BitstreamReader.read_sint drops the sign", lambda: replay_writer(hist, fin), bio.BitstreamReader, "read_sint", lambda orig: (lambda self: abs(orig(self))))
     # 2. writer accepts a too-wide value by truncation -> outofrange
-    hist = [wstep(O("nbits", n=3, v=8), 0, 0, err="OutOfRangeError")]
-    fin = {"file": (), "intact": (False,)}
-    orig_w = bio.BitstreamWriter.write_nbits
-
-    def trunc(self, bits, value):
-        return orig_w(self, bits, value & ((1 << bits) - 1))
-
-    bio.BitstreamWriter.write_nbits = trunc
-    try:
-        fired["writer truncates"] = sorted(set(s for s, _ in replay_writer(hist, fin)["violations"]))
-    finally:
-        bio.BitstreamWriter.write_nbits = orig_w
-    # 3. decoder.io read_bitb ignores the block end -> readers disagree / block
+    hist2 = [wstep(O("nbits", n=3, v=8), 0, 0, err="OutOfRangeError")]
+    fin2 = {"file": (), "intact": (False,)}
+    probe("BitstreamWriter.write_nbits truncates instead of refusing", lambda: replay_writer(hist2, fin2), bio.BitstreamWriter, "write_nbits", lambda orig: (lambda self, bits, value: orig(self, bits, value & ((1 << bits) - 1))))
+    # 3. decoder.io read_bitb ignores the block end -> block / readers disagree
     rh = [
         dict(o=O("bbegin", n=0), v=0, err="none", pos=0, on=True, rem=0, pastend=False),
         dict(o=O("bit"), v=1, err="none", pos=0, on=True, rem=-1, pastend=True),
     ]
-    if replay_reader((0,) * 8, rh)["violations"]:
-        raise RuntimeError("self-test premise failed: the unmodified readers are flagged")
-    dio = m["dio"]
-    orig_b = dio.read_bitb
-    dio.read_bitb = lambda state: dio.read_bit(state)
-    try:
-        fired["decoder ignores block end"] = sorted(set(s for s, _ in replay_reader((0,) * 8, rh)["violations"]))
-    finally:
-        dio.read_bitb = orig_b
-    for k, v in fired.items():
-        if not v:
-            raise RuntimeError("binding self-test failed: mutant %r was not flagged" % k)
+    probe("decoder.io.read_bitb ignores the block end", lambda: replay_reader((0,) * 8, rh), dio, "read_bitb", lambda orig: (lambda state: dio.read_bit(state)))
     return fired
 
 
@@ -796,10 +793,10 @@ def gen_wop(rnd, inblock):
     if c < 0.76:
         k = rnd.randrange(0, 30)
         bits = [rnd.randrange(2) if rnd.random() < 0.7 else 1 for _ in range(k)]
-        return {"op": "bitarray", "n": max(0, k + rnd.choice([0, 0, 3, -1])), "s": bits}
+        return {"op": "bitarray", "n": max(0, k + rnd.choice([0, 0, 3, 9, 17, -1])), "s": bits}
     if c < 0.82:
         k = rnd.randrange(0, 5)
-        return {"op": "bytes", "n": max(0, k + rnd.choice([0, 0, 1, -1])), "s": [rnd.choice([0, 255, rnd.randrange(256)]) for _ in range(k)]}
+        return {"op": "bytes", "n": max(0, k + rnd.choice([0, 0, 1, 2, 3, -1])), "s": [rnd.choice([0, 255, rnd.randrange(256)]) for _ in range(k)]}
     if c < 0.92:
         if inblock:
             return {"op": "bend", "n": 0}
